@@ -322,28 +322,6 @@ theorem encoding_read_write (env : Env) (n : Nat) (e : EncodingV) (hs : FontEnco
 
 /-! ## name trees: the reader on the form a writer would have to produce (the library's writer is `todo!()`) -/
 
-def specNames (wrT : Val → R Prim) : List (List UInt8 × Val) → R (List Prim)
-  | [] => .ok []
-  | (k, v) :: r =>
-    match wrT v with
-    | .error e => .error e
-    | .ok p =>
-      match specNames wrT r with
-      | .ok t => .ok (.str k :: p :: t)
-      | .error e => .error e
-
-/-- `<< /Limits [(a) (b)] /Names [(k1) v1 …] >>` resp. `/Kids [refs]`, the counterpart of `NumberTree::to_primitive` -/
-def specNameTree (wrT : Val → R Prim) (t : NameTreeV) : R Prim :=
-  let d0 : Dict := match t.limits with
-    | some (a, b) => dinsert "Limits" (.arr [.str a, .str b]) []
-    | none => []
-  match t.node with
-  | .leaf items =>
-    match specNames wrT items with
-    | .ok ps => .ok (.dict (dinsert "Names" (.arr ps) d0))
-    | .error e => .error e
-  | .inter kids => .ok (.dict (dinsert "Kids" (.arr (kids.map fun k => .ref k.1 k.2)) d0))
-
 theorem readNames_specNames (rdT : Prim → R Val) (wrT : Val → R Prim) (env : Env) :
     ∀ (items : List (List UInt8 × Val)) (ps : List Prim),
       (∀ kv ∈ items, ∀ q, wrT kv.2 = .ok q → ∃ v', rdT q = .ok v' ∧ wrT v' = .ok q) →
